@@ -3,7 +3,8 @@
    the optional explicit counts.  [line_m] loads them with the loader model (LD.graph_from_files, adjacency
    in the CompactOrderedHashMap model) and prints every accessor of the resulting Graph; [line_s] prints the
    same observations computed directly from the rows by the specification functions (find / filter on the
-   row lists: no loader, no container), or "unspecified" when the case is outside the hypotheses LD.wf.
+   row lists: no loader, no container); "!DatasetError" when an end point is not a listed vertex (the load
+   must fail); "unspecified" when the case is outside the documented format LD.wf_format.
    Both go through the same printer [show_view]; only the sources of the observations differ.
    Stream `tables`: per-edge tables.
    Distances and coordinates are printed as integers (the harness writes values k/4 and compares 4x). *)
@@ -127,8 +128,11 @@ Definition line_m (id : Z) (erows : list (nat * nat * nat * Z)) (vrows : list (n
 
 Definition line_s (id : Z) (erows : list (nat * nat * nat * Z)) (vrows : list (nat * Z * Z))
     (elines vlines : nat) (ne nv : option nat) : string :=
-  line "S" id (if LD.wfb (mk_files erows vrows elines vlines) nv
-               then show_view (view_of_rows (mk_edges erows) (mk_vertices vrows))
+  let f := mk_files erows vrows elines vlines in
+  line "S" id (if LD.formatb f nv
+               then if LD.endsb (List.length vrows) (mk_edges erows)
+                    then show_view (view_of_rows (mk_edges erows) (mk_vertices vrows))
+                    else "!DatasetError"   (* an edge list that references a vertex that is not listed must not load *)
                else "unspecified").
 
 (* ---- stream `tables` ---- *)
